@@ -237,7 +237,7 @@ CLAIMED["C10"] = {
     "text": "Theorems: union / intersection / difference point-wise, product form of the intersection, time-fold and space-fold semantics (the code's range reading equals the instant reading "
             "for valid operands), half-open lookup incl. the shared-boundary case, what validFlatB rejects; the sweep Ranges2D::merge behind the flat union / intersection / difference is TRANSLITERATED (Model/Merge2D.lean: event "
             "merge of the two operands, emission of segments, repaired final pass) and PROVED for every pair of well-formed operands: the result covers exactly the point-wise operation (flat_algebra_sem) and is a "
-            "valid flat coverage (flat_algebra_valid: no zero-length range, ordered, disjoint, non-empty canonical coverages, no unfused touching ranges), the tie to the code being the EXACT agreement of the entries; the valid flat form is proved to be a NORMAL form (flat_normal_form: two valid flat coverages with the same point set are equal), so the computed entries are commutative / associative / idempotent as lists; "
+            "valid flat coverage (flat_algebra_valid: no zero-length range, ordered, disjoint, non-empty canonical coverages, no unfused touching ranges), the tie to the code being the EXACT agreement of the entries; the valid flat form is proved to be a NORMAL form (flat_normal_form: two valid flat coverages with the same point set are equal), so the computed entries are commutative / associative / idempotent as lists; time_space_iter (flat form -> RangeMOC2 elements) is transliterated too and proved to return a valid ST-MOC covering the same pairs (time_space_iter_sem, st_algebra_chain), tied by exact agreement of the elements; "
             "code-level models of the two folds (tfold_ranges: filter + union reduction is canonical, covers exactly "
             "the spec and is independent of the order of the parallel reduction; sfold_ranges: filter + new_from_sorted). The Ranges2D algebra, both folds (grid bits AND the returned ranges) and both "
             "lookups of the real code are compared with them. Three defects repaired (closed time range + unreachable!() in contains; inverted comparator in RangeMOC2::contains_val; "
